@@ -616,9 +616,14 @@ func memRun(seed int64, kind string, calls []string, fill byte) []memStep {
 	case "codec":
 		// the same honest messages under both fills (they are made with the library's own randomness)
 		hs := cachedHonest(seed, strings.Join(calls, ","), r)
-		pick := map[string][]byte{}
+		// two honest messages per kind, used alternately: decoding a DIFFERENT message into the same object must not
+		// overwrite what an earlier decode handed out (the same message again would overwrite it with equal bytes)
+		pickA, pickB := map[string][]byte{}, map[string][]byte{}
 		for _, h := range hs {
-			pick[h.m] = h.b
+			if _, ok := pickA[h.m]; !ok {
+				pickA[h.m] = h.b
+			}
+			pickB[h.m] = h.b
 		}
 		msgs := []string{"t1req", "t2req", "t3req", "t5req", "inner", "batchreq"}
 		objs := map[string]codecObj{}
@@ -631,6 +636,10 @@ func memRun(seed int64, kind string, calls []string, fill byte) []memStep {
 			case "Unmarshal", "UnmarshalBad":
 				args := map[string][]byte{}
 				for _, m := range msgs {
+					pick := pickA
+					if n%2 == 1 {
+						pick = pickB
+					}
 					b := append([]byte{}, pick[m]...)
 					if c == "UnmarshalBad" {
 						// cut inside the last field; under one fill the spare capacity behind the slice holds exactly
